@@ -41,8 +41,9 @@ CHECKS['C19'] = ('necessary bookkeeping of the flush/slice/carry loop only: ever
                  'CFG path enumeration and dominance over rebatched_args, AST table agreement for helpers and call sites')
 CHECKS['C02'] = ('necessary bookkeeping of the per-key/per-slice state update only: the unsliced state is updated once per batch with the unmasked function and independently of slicers; every yielded (slice key, masks) pair gets its own state created on first sight and updated with the function masked by that pair; the default mask builder advances the row index once per row after recording it and masks have one entry per row; masks are applied to the selected inputs; get_result reports every state entry under its own key. Slice membership and per-slice values are NOT decided',
                  'CFG dominance/must-pass queries and AST dataflow over update_state, the mask builder and get_result; effect analysis of apply_mask')
+CHECKS['C03'] = ('necessary structural conditions only: thread sharding covers each shard index once; every source is consumed under every strategy; the operator chain applies runner.fns in order, each once; the aggregate is updated once per delivered batch in the consumer, never inside the threaded chain; fusing/chaining keep all operators in order; stages are built and piped in order; the chained iterator reports all stages; the in-process stage runs the same runner. Equality of results across strategies is NOT decided (producer count/locking/merge count: C13, C16)',
+                 'AST/CFG structural rules and table agreement over the runner and transform builders')
 NA = {
-    'C03': 'equality of outputs across threaded/fused/sharded executions is a relation between executions; its only structural ingredients (shared-input locking, merge count) are claimed under C13 and C16',
 }
 
 def main():
